@@ -25,7 +25,12 @@ StdKids(k) == CASE k = "message" -> <<"subject", "body", "thread">> [] k = "pres
 ExtName(e) == CASE e \in {"oob", "muc"} -> "x" [] e = "rreq" -> "request" [] e \in {"rrcv", "mrcv"} -> "received" [] e = "markable" -> "markable"
                 [] e = "mdisp" -> "displayed" [] e = "mack" -> "acknowledged" [] e = "nps" -> "no-permanent-store" [] e = "nostore" -> "no-store"
                 [] e = "nocopy" -> "no-copy" [] e = "store" -> "store" [] e \in {"version", "discoinfo", "discoitems", "roster"} -> "query"
-                [] e = "bind" -> "bind" [] e = "node" -> "thing" [] OTHER -> e
+                [] e = "bind" -> "bind" [] e = "node" -> "thing"
+                \* extensions registered by the application: same LOCAL names as the core children, another namespace; the
+                \* registry is keyed by the qualified name, so is the child name here ("app:" stands for their namespaces)
+                [] e = "xbody" -> "app:body" [] e = "xsubject" -> "app:subject" [] e = "xthread" -> "app:thread"
+                [] e \in {"xerror", "xperror"} -> "app:error" [] e = "xshow" -> "app:show" [] e = "xstatus" -> "app:status"
+                [] e = "xpriority" -> "app:priority" [] OTHER -> e
 SeqOf(S, n) == UNION {[1..k -> S] : k \in 0..n}
 NoDup(q) == \A i, j \in 1..Len(q) : i # j => q[i] # q[j]
 
